@@ -1039,6 +1039,8 @@ class FunctionScope(Scope):
         # Names that are accessed from a None node context (e.g., from a nested function). These
         # are ignored when looking at unused variables.
         self.accessed_from_special_nodes = set()
+        # Usages (node, varname) visited while the name had no definition in this scope.
+        self.unbound_usages = set()
         self.current_loop_scopes = []
 
     def add_constraint(
@@ -1159,8 +1161,15 @@ class FunctionScope(Scope):
         else:
             if varname in self.name_to_current_definition_nodes:
                 definers = self.name_to_current_definition_nodes[varname]
+                if key in self.unbound_usages:
+                    # Loop bodies are visited twice. If the name was unbound on an
+                    # earlier visit of this node, the use is only possibly defined.
+                    self.unbound_usages.discard(key)
+                    self.usage_to_definition_nodes[key].append(_UNINITIALIZED)
                 self.usage_to_definition_nodes[key] += definers
             else:
+                if not from_parent_scope:
+                    self.unbound_usages.add(key)
                 return self.referencing_value_vars[varname], EMPTY_ORIGIN
         return self._get_value_from_nodes(definers, ctx), self._resolve_origin(definers)
 
